@@ -93,7 +93,13 @@ func TestExpiryBounds(t *testing.T) {
 				for s := 0; s < per; s++ {
 					var ctxTTL time.Duration
 
-					if rng.Intn(2) == 0 {
+					// the first samples of every setting are fixed corner values (-1ns equals UnlimitedTTL numerically)
+					special := []time.Duration{-1, 1, 0, -time.Microsecond, -time.Hour}
+
+					switch {
+					case s < len(special):
+						ctxTTL = special[s]
+					case rng.Intn(2) == 0:
 						ctxTTL = ttls[rng.Intn(len(ttls))]
 						if rng.Intn(4) == 0 {
 							ctxTTL = -ctxTTL
